@@ -3,3 +3,7 @@ import XzVerif.Props.C03
 #print axioms Props.C03.C03_reads_every_wellformed_stream
 #print axioms Props.C03.C03_content_independent_of_cap
 #print axioms Props.C03.C03_tables
+#print axioms Props.C03.C03_ring_byteAt
+#print axioms Props.C03.C03_ring_match_appends_copy
+#print axioms Props.C03.C03_ring_literal
+#print axioms Props.C03.C03_ring_read
